@@ -74,6 +74,7 @@ def gen_knobs(rng, cfg, body_tricks=False, short_reads=False):
         'fs_buffer': wchoice(rng, [(8192, 3), (0, 1), (3, 1)]),
         # statement-level pre-emption inside s3transfer code (slower runs)
         'line_preempt': rng.random() < 0.06,
+        'complete_idempotent': rng.random() < 0.5,
     }
     if body_tricks:
         k['pre_read'] = rng.random() < 0.3
@@ -127,6 +128,8 @@ def gen_transfer(rng, cfg, types, nsubs=1, reenter=False, maxsize=40,
         spec['src'] = wchoice(rng, [('path', 3), ('seekable', 3), ('nonseekable', 3)])
         if spec['src'] == 'seekable':
             spec['offset'] = wchoice(rng, [(0, 2), (rng.randint(1, 9), 2)])
+            if rng.random() < 0.3:
+                spec['duck'] = True     # no seekable()/readable(): probed by seek/tell
         if spec['src'] == 'nonseekable':
             spec['short_src'] = rng.random() < 0.25
         if rng.random() < provide_prob:
@@ -138,6 +141,8 @@ def gen_transfer(rng, cfg, types, nsubs=1, reenter=False, maxsize=40,
                                     ('fifo', 1)])
         if spec['dst'] == 'path':
             spec['prev'] = wchoice(rng, [(None, 2), (rng.randint(0, 9), 2)])
+        if spec['dst'] == 'seekable' and rng.random() < 0.3:
+            spec['duck'] = True
         if rng.random() < provide_prob:
             provide = size
     elif ty == 'copy':
@@ -257,6 +262,11 @@ def gen_fatal_fault(rng, tidx, spec, cfg, kinds=None):
         f = {'site': 's3', 'when': rng.choice(['before', 'after']),
              'exc': rng.choice(FATAL_EXC)}
         f.update(site)
+        if site['op'] != 'get_object' and rng.random() < 0.25:
+            # a network error of the family that is retryable for download
+            # streams is still fatal for every other request (and the service
+            # may have applied the call: 'after')
+            f['exc'] = rng.choice(['conn', 'readtimeout', 'timeout'])
         return [f]
     if k == 'src':
         if spec['src'] == 'path':
@@ -653,7 +663,8 @@ def gen_C07(rng):
                                  'exc': 'oserror'})
         else:
             f = {'site': 's3', 'when': rng.choice(['before', 'after']),
-                 'exc': rng.choice(FATAL_EXC)}
+                 'exc': rng.choice(FATAL_EXC + (['conn', 'readtimeout']
+                                                if site['op'] != 'get_object' else []))}
             f.update(site)
             sc['faults'].append(f)
     add_cancel_script(rng, sc)
@@ -821,6 +832,32 @@ def gen_C16(rng):
 
 def gen_C13(rng):
     """End-to-end transfers through a manager with max_bandwidth set."""
+    if rng.random() < 0.25:
+        # many bodies smaller than the limiter's batching threshold, one request
+        # at a time: every one of them is charged only when it is closed, and
+        # together they must still respect the limit
+        sc = base(rng, [('upload', 3), ('download', 1)], nmax=3, short_reads=True, maxsize=15)
+        cfg = sc['config']
+        thr = 16
+        cfg['multipart_threshold'] = 64
+        cfg['multipart_chunksize'] = 64
+        cfg['max_request_concurrency'] = 1
+        cfg['max_bandwidth'] = rng.choice([8, 16])
+        n = rng.randint(8, 12)
+        while len(sc['transfers']) < n:
+            sc['transfers'].append(gen_transfer(rng, cfg, [('upload', 4), ('download', 1)]))
+        for t in sc['transfers']:
+            t['size'] = rng.randint(thr // 2, thr - 1)
+            for sub in t['subs']:
+                if sub.get('provide_size') is not None:
+                    sub['provide_size'] = t['size']
+        sc['knobs']['bw_threshold'] = thr
+        sc['knobs']['latency'] = 'none'
+        sc['knobs']['pre_read'] = False
+        sc['knobs']['sign_read'] = rng.random() < 0.3
+        sc['strategy'] = gen_strategy(rng, est_steps(sc['transfers'], cfg))
+        sc['max_steps'] = 80 * est_steps(sc['transfers'], cfg) + 40000
+        return sc
     sc = base(rng, [('upload', 4), ('download', 4)], nmax=3, short_reads=True, maxsize=36)
     cfg = sc['config']
     if rng.random() < 0.7:
